@@ -1517,3 +1517,125 @@ def m_split_at(it, argv, text):
 def m_str_is_ascii(it, argv, text):
     s = it.as_str(argv[0]).b
     return all((b < 128) if isinstance(b, int) else True for b in s)
+
+
+# ----------------------------------------------------------------------------- Entry API, From conversions
+
+def _entry_parts(it, e):
+    e = it.deref_all(e)
+    if isinstance(e, EnumV):       # Entry::{Occupied,Vacant}(inner)
+        e = e.f[0]
+    return e.data                  # (map addr, key, index|None)
+
+
+def _entry_slot(it, e):
+    addr, key, i = _entry_parts(it, e)
+    return addr, key, i
+
+
+@model('OccupiedEntry::get', 'OccupiedEntry::get_mut', 'OccupiedEntry::into_mut')
+def m_occ_get(it, argv, text):
+    addr, key, i = _entry_slot(it, argv[0])
+    return RefV(Addr(addr.root, addr.proj + (('i', i), ('f', 1))))
+
+
+@model('OccupiedEntry::key', 'VacantEntry::key')
+def m_occ_key(it, argv, text):
+    addr, key, i = _entry_slot(it, argv[0])
+    return RefV(it.alloc(key))
+
+
+@model('OccupiedEntry::insert')
+def m_occ_insert(it, argv, text):
+    addr, key, i = _entry_slot(it, argv[0])
+    slot = Addr(addr.root, addr.proj + (('i', i), ('f', 1)))
+    old = it.load(slot)
+    it.store(slot, argv[1])
+    return old
+
+
+@model('OccupiedEntry::remove', 'OccupiedEntry::remove_entry')
+def m_occ_remove(it, argv, text):
+    addr, key, i = _entry_slot(it, argv[0])
+    mv = it.load(addr)
+    it.store(addr, MapV(mv.items[:i] + mv.items[i + 1:], mv.is_set))
+    return mv.items[i] if text.endswith('remove_entry') else mv.items[i].f[1]
+
+
+@model('VacantEntry::insert', 'VacantEntry::insert_entry')
+def m_vac_insert(it, argv, text):
+    addr, key, i = _entry_slot(it, argv[0])
+    mv = it.load(addr)
+    it.store(addr, MapV(mv.items + (TupleV((key, argv[1])),), mv.is_set))
+    return RefV(Addr(addr.root, addr.proj + (('i', len(mv.items)), ('f', 1))))
+
+
+@model('VacantEntry::into_key')
+def m_vac_into_key(it, argv, text):
+    return _entry_slot(it, argv[0])[1]
+
+
+@model('Entry::or_insert_with_key')
+def m_or_insert_with_key(it, argv, text):
+    ent = argv[0]
+    return S._entry_or(it, ent, lambda: it.call_value(argv[1], [RefV(it.alloc(ent.f[0].data[1]))]))
+
+
+@model('<HashSet as From>::from', '<HashSet as FromIterator>::from_iter')
+def m_set_from(it, argv, text):
+    mv = MapV((), True)
+    src = argv[0]
+    items = src.e if isinstance(src, VecV) else drain(it, S.m_into_iter(it, [src], text))
+    for x in items:
+        mv = S.map_insert(it, mv, x, UNIT)[0]
+    return mv
+
+
+@model('<HashMap as From>::from', '<HashMap as FromIterator>::from_iter')
+def m_map_from(it, argv, text):
+    mv = MapV((), False)
+    src = argv[0]
+    items = src.e if isinstance(src, VecV) else drain(it, S.m_into_iter(it, [src], text))
+    for x in items:
+        mv = S.map_insert(it, mv, x.f[0], x.f[1])[0]
+    return mv
+
+
+@model('<Vec as From>::from', '<Vec as FromIterator>::from_iter', 'slice::into_vec')
+def m_vec_from(it, argv, text):
+    src = it.deref_all(argv[0])
+    if isinstance(src, StrV):
+        return VecV(src.b)
+    if isinstance(src, VecV):
+        return src
+    if isinstance(src, MapV):
+        return VecV(tuple(kv.f[0] if src.is_set else kv for kv in src.items))
+    return VecV(tuple(drain(it, S.m_into_iter(it, [argv[0]], text))))
+
+
+@model('HashSet::get')
+def m_set_get(it, argv, text):
+    r = argv[0]
+    while isinstance(it.load(r.addr), RefV):
+        r = it.load(r.addr)
+    mv = it.load(r.addr)
+    i = S.map_find(it, mv, it.deref_all(argv[1]))
+    if i is None:
+        return NONE
+    return some(RefV(Addr(r.addr.root, r.addr.proj + (('i', i), ('f', 0)))))
+
+
+@model('HashSet::union', 'HashSet::difference', 'HashSet::intersection')
+def m_set_ops(it, argv, text):
+    a, b = it.deref_all(argv[0]), it.deref_all(argv[1])
+    op = text.rsplit('::', 1)[-1].split('<')[0]
+    out = []
+    for kv in a.items:
+        inb = S.map_find(it, b, kv.f[0]) is not None
+        if (op == 'difference' and not inb) or (op == 'intersection' and inb) or op == 'union':
+            out.append(kv.f[0])
+    if op == 'union':
+        for kv in b.items:
+            if S.map_find(it, a, kv.f[0]) is None:
+                out.append(kv.f[0])
+    return IterV('list', (tuple(RefV(it.alloc(x)) for x in out), 0))
